@@ -86,4 +86,14 @@ var props = map[string]propCfg{
 		NotDecided: []string{"that operands appear in source order without loss (needs a token-list ghost); application binds tighter / prefix not applies to the following application (parseTerm, parseAtomList are abstract operands of rank 100 here)"},
 		Scans: []func(*run){scanBinOpTable, scanBinOpCallSites},
 	},
+	"C05": {
+		Modules: []string{"fc"},
+		Decided: []string{
+			"closed-world scan: fc and pkg/* contain no goroutines, select, time, math/rand, environment reads, %p or unsafe, and every range over a map and every call of dict.Keys / Values / KVs is one of the listed consumer sites",
+			"each consumer of a dictionary enumeration has an order-free postcondition that determines its observable result: exaustiveCheck (accept/reject by the C09 iff), eqsUnion (exactly the union of the two key sets), eqsItems / rsRegisterNewEI (every member registered to the same info, nothing else changed), scLookupRecFacCur (the matching factory - under the carve-out of known finding F8)",
+			"the dict functions themselves: Keys / Values / KVs return each entry exactly once (order unspecified)",
+		},
+		NotDecided: []string{"piRegAll's registration through closures stored in dictionaries (its keys are distinct by construction; read, not proved)", "the text of the non-exhaustive-match diagnostic names an order-dependent case (outside the statement: output files and the accept/reject decision)"},
+		Scans: []func(*run){scanNondeterminism},
+	},
 }
